@@ -4,6 +4,7 @@ import (
 	"fmt"
 	"os"
 	"sort"
+	"strconv"
 	"strings"
 	"time"
 
@@ -141,3 +142,31 @@ var _ = verdict.Root
 func sortStrings(s []string) { sort.Strings(s) }
 
 func os_RemoveAll(p string) { os.RemoveAll(p) }
+
+// lock-discipline monitor of the emulator host (hooks ds:lock-skipped / ds:exclusive-*): the data store mutex may be
+// skipped only by the commands of a transaction while EXEC holds that data store exclusively.
+func enableLockMonitor(c *host.Child) { c.Ctl("lockmonitor on") }
+
+func reportLockMonitor(r *verdict.Run, c *host.Child) {
+	if c == nil || !c.Alive() {
+		return
+	}
+	out, err := c.Do(5*time.Second, "lockmonitor report")
+	if err != nil {
+		return
+	}
+	f := strings.SplitN(strings.TrimPrefix(out, "ok "), " ", 3)
+	if len(f) < 2 {
+		return
+	}
+	viol, _ := strconv.ParseInt(f[0], 10, 64)
+	skips, _ := strconv.ParseInt(f[1], 10, 64)
+	r.Count("lock_monitor_skips_observed", skips)
+	if viol > 0 {
+		first := ""
+		if len(f) > 2 {
+			first = strings.ReplaceAll(f[2], "_", " ")
+		}
+		r.Report("lock/mutex-skipped-without-exclusive-owner", fmt.Sprintf("%d commands ran on a data store without taking its mutex although no transaction held that data store exclusively (of %d legitimate and illegitimate skips observed); first: %s", viol, skips, trunc(first, 1500)), nil)
+	}
+}
